@@ -2,34 +2,40 @@
 Crash in the middle of a table commit: any prefix of the persistent writes followed by a reopen is repaired exactly by
 a rollback to a height at or below the last completed commit (and inside the window).
 
-Two statements needed an extra hypothesis (both are false without it, see the notes at each theorem and the
-machine-checked counterexample `crash_in_reorg_not_recoverable` at the end of the file):
+`commit` writes, for a cached key whose history is *kept*, the history row and then the value row; for a key whose
+history is *old* (to be dropped), the value row first and the deletion of the history row last (`Table.keyWrites`).
+With that order every prefix of the writes leaves, for every key, a retrievable history that still says at the
+durable target `n` what the plain specification says, so that:
 
-* `crash_recoverable` needs `CacheAhead t` ("no cached history is behind the persisted one").  It holds in every
-  state reached through the API (`cacheAhead_run`; `crash_recoverable_run` is the resulting unconditional statement
-  for reachable states) but it is not a consequence of `Sim`, which also relates the half-way state inside `reorg`.
-* `crash_in_reorg_recoverable` needs `hrow`: if the crash separates the two writes of a key (`i` odd, key number
-  `i / 2` of the cache) whose *truncated* history is old - so that its history row has just been deleted - then that
-  key's value row must already hold the rolled-back value.  Without it the key keeps the rolled-back-over value for
-  ever: no later `reorg` visits a key that has no history row.  This is a genuine crash window of `reorg`.
+* `crash_recoverable` holds for every table in simulation (`Sim`).  Its hypothesis `CacheAhead t` ("no cached history
+  is behind the persisted one") is kept in the statement for interface stability but is no longer used:
+  `crash_recoverable_of_sim` is the same statement without it.  (With the former order - history row deleted *before*
+  the value row was written - the hypothesis was necessary; the former counterexample now recovers, see
+  `crash_without_cacheAhead_scenario_recovers`.)
+* `crash_in_reorg_recoverable` - a crash inside the commit that ends a `reorg m`, after the in-memory truncation -
+  holds with no side condition on the value rows (the former hypothesis `hrow` is gone).  The scenario that was a
+  machine-checked counterexample under the former order is now `crash_in_reorg_scenario_recovers`.
 -/
 import Brc20.Proofs.Table
 import Brc20.Proofs.TableScan
 import Brc20.Proofs.CrashLemmas
 set_option linter.unusedSectionVars false
--- `hc : ColsNodup t` and `hn : n ≤ s.maxEver` are kept for a uniform interface; the proofs do not need them
+-- `hc : ColsNodup t`, `ha : CacheAhead t` and `hn : n ≤ s.maxEver` are kept for a uniform
+-- interface; the proofs do not need them
 set_option linter.unusedVariables false
 
 namespace Brc20.Table
 variable {K V : Type} [DecidableEq K] [DecidableEq V]
 open Hist
 
-/-- Core of `crash_recoverable`, with the weakest hypothesis on the value rows: only the key the crash caught
-between its two writes matters, and only if its history is old (its history row was deleted, not rewritten). -/
-theorem crash_recoverable_of_row {W : Nat} {t : Table K V} {s : TSpec K V} (h : Sim W t s) (b i n : Nat)
+/-- Core of `crash_recoverable`: `Sim` alone suffices.  Per cached key `k` with history `h0`, after `i` writes:
+kept history - nothing written / history row written / both; old history - nothing written / value row written and
+the previously persisted history (or none) still in place / both (row deleted).  In each case the reopened table
+retrieves a history that says `readAt k n` at `n` (`crash_retrieve`), and `reorg n` rewrites the value row from it
+(`reorg_reads`). -/
+theorem crash_recoverable_of_sim {W : Nat} {t : Table K V} {s : TSpec K V} (h : Sim W t s) (b i n : Nat)
     (hw : s.maxEver ≤ n + W) (hb : b ≤ n + W + 1)
-    (hdur : ∀ k, (s.cur k).valAt n = (s.dur k).valAt n)
-    (hrow : ∀ k h0, i % 2 = 1 → t.cache[i / 2]? = some (k, h0) → h0.isOld W b = true → t.db.get? k = h0.latest) :
+    (hdur : ∀ k, (s.cur k).valAt n = (s.dur k).valAt n) :
     ∃ t', (t.crashCommit W b i).reorg W n = some t' ∧ ∀ k, t'.latest k = s.readAt k n := by
   have hcv : ∀ k h0, t.cache.get? k = some h0 → valAt h0 n = some (s.readAt k n) := by
     intro k h0 hg
@@ -46,10 +52,6 @@ theorem crash_recoverable_of_row {W : Nat} {t : Table K V} {s : TSpec K V} (h : 
     (fun k h0 hg => (h.inv.cdb_ok k h0 hg).1.sorted)
     (fun k => by rw [h.dur_eq k n hw, ← hdur k]; exact valAt_cur_readAt h k n)
     hcv hold
-    (fun k h0 hi hg ho => by
-      have hm : (k, h0) ∈ t.cache := List.mem_of_getElem? hg
-      rw [hrow k h0 hi hg ho]
-      exact hold k h0 (AMap.get?_of_mem_nodup h.inv.cache_nodup hm) ho)
   exact reorg_reads hc0 _ (fun k => (hr k).1) (fun k => (hr k).2)
 
 /-- **Crash-recoverable commit.**  `t` is in simulation with the plain specification `s`.  The process dies after
@@ -60,22 +62,16 @@ commit block: `b ≤ n + W + 1`) that is *durable*: nothing written since the la
 Then `reorg n` on the reopened table does not panic and every key reads exactly the value it had at the end of
 block `n`.
 
-**Added hypothesis** `ha : CacheAhead t` (no persisted stamp of a key lies above the newest cached stamp of that
-key).  It is an invariant of the API (`cacheAhead_step`, `cacheAhead_run`) but not part of `Sim`, and the statement
-is false without it.  Counterexample (`W = 10`): `cache = [(k, [(0,none),(5,v1)])]`,
-`cdb = [(k, [(0,none),(5,v1),(7,v2)])]`, `db = [(k, v2)]`, in simulation with `cur k = [(0,none),(5,v1)]`,
-`dur k = [(0,none),(5,v1),(7,v2)]`, `top = maxEver = 7`; `b = 16`, `i = 1`, `n = 5`: the cached history is old at 16,
-the crash deletes the history row and leaves the value row `v2`; `reorg 5` then has no key to visit and `k` reads
-`v2`, not `v1`.  (This is the state *inside* a `reorg 6`, between load and commit.) -/
+The hypothesis `ha : CacheAhead t` (no persisted stamp of a key lies above the newest cached stamp of that key; an
+invariant of the API, `cacheAhead_step`, `cacheAhead_run`) was necessary when `commit` deleted an old history row
+before writing the value row.  With the present write order it is not used (`crash_recoverable_of_sim`); it is kept so
+that the statement is unchanged. -/
 theorem crash_recoverable {W : Nat} {t : Table K V} {s : TSpec K V} (h : Sim W t s) (hc : ColsNodup t)
     (ha : CacheAhead t) (b i n : Nat)
     (hw : s.maxEver ≤ n + W) (hn : n ≤ s.maxEver) (hb : b ≤ n + W + 1)
     (hdur : ∀ k, (s.cur k).valAt n = (s.dur k).valAt n) :
-    ∃ t', (t.crashCommit W b i).reorg W n = some t' ∧ ∀ k, t'.latest k = s.readAt k n := by
-  apply crash_recoverable_of_row h b i n hw hb hdur
-  intro k h0 _ hg ho
-  have hm : (k, h0) ∈ t.cache := List.mem_of_getElem? hg
-  exact ha.row h hw hb hdur (AMap.get?_of_mem_nodup h.inv.cache_nodup hm) ho
+    ∃ t', (t.crashCommit W b i).reorg W n = some t' ∧ ∀ k, t'.latest k = s.readAt k n :=
+  crash_recoverable_of_sim h b i n hw hb hdur
 
 /-- `crash_recoverable` for every state reached from the empty table by a legal history: no extra hypothesis. -/
 theorem crash_recoverable_run {W : Nat} (ops : List (TOp K V)) (hl : TSpec.legalRun W TSpec.init ops) :
@@ -83,30 +79,15 @@ theorem crash_recoverable_run {W : Nat} (ops : List (TOp K V)) (hl : TSpec.legal
       ∀ b i n, (TSpec.init.run ops).maxEver ≤ n + W → b ≤ n + W + 1 →
         (∀ k, (((TSpec.init : TSpec K V).run ops).cur k).valAt n = ((TSpec.init.run ops).dur k).valAt n) →
         ∃ t', (t.crashCommit W b i).reorg W n = some t' ∧ ∀ k, t'.latest k = (TSpec.init.run ops).readAt k n := by
-  obtain ⟨t, e, hs, ha⟩ := cacheAhead_run (sim_init W) cacheAhead_empty ops hl
-  refine ⟨t, e, ?_⟩
-  intro b i n hw hb hdur
-  apply crash_recoverable_of_row hs b i n hw hb hdur
-  intro k h0 _ hg ho
-  have hm : (k, h0) ∈ t.cache := List.mem_of_getElem? hg
-  exact ha.row hs hw hb hdur (AMap.get?_of_mem_nodup hs.inv.cache_nodup hm) ho
+  obtain ⟨t, e, hs⟩ := run_sim (sim_init W) ops hl
+  exact ⟨t, e, fun b i n hw hb hdur => crash_recoverable_of_sim hs b i n hw hb hdur⟩
 
-/-- The same for a crash in the middle of the commit that ends a `reorg m` (after the in-memory truncation): a
-later rollback to any `n ≤ m` inside the window repairs it.
-
-**Added hypothesis** `hrow`: if the crash falls between the two writes of a key (`i` odd; the key is number `i / 2`
-of the loaded cache) whose truncated history is old at `m` - its history row has been deleted - then its value row
-already holds the value `commit m` was about to write.  The statement is false without it
-(`crash_in_reorg_not_recoverable` below): `set 5 k v1; commit 6; set 17 k v2; commit 18; reorg 16` with `W = 10`
-truncates `k`'s history to `[(5,v1)]`, which is old at 16; a crash after the deletion of the history row leaves the
-value row `v2` with no history row, and every later `reorg` skips `k`. -/
-theorem crash_in_reorg_recoverable {W : Nat} {t : Table K V} {s : TSpec K V} (h : Sim W t s) (hc : ColsNodup t)
+/-- Core of `crash_in_reorg_recoverable` (no `ColsNodup`). -/
+theorem crash_in_reorg_recoverable_core {W : Nat} {t : Table K V} {s : TSpec K V} (h : Sim W t s)
     (m i n : Nat) (hm : s.maxEver ≤ m + W) (hm' : m ≤ s.maxEver) (hnm : n ≤ m)
     (hw : s.maxEver ≤ n + W)
     (hdur : ∀ k, (s.cur k).valAt n = (s.dur k).valAt n) (tl : Table K V)
-    (hl : t.reorgLoad m t.reorgKeys = some tl)
-    (hrow : ∀ k h0, i % 2 = 1 → tl.cache[i / 2]? = some (k, h0) → h0.isOld W m = true →
-      tl.db.get? k = h0.latest) :
+    (hl : t.reorgLoad m t.reorgKeys = some tl) :
     ∃ t', (tl.crashCommit W m i).reorg W n = some t' ∧ ∀ k, t'.latest k = s.readAt k n := by
   obtain ⟨t1, e1, e2, e3, nd1, hk⟩ := reorg_load h m hm
   rw [hl] at e1
@@ -141,20 +122,51 @@ theorem crash_in_reorg_recoverable {W : Nat} {t : Table K V} {s : TSpec K V} (h 
     (fun k h0 hg => by rw [e3] at hg; exact (h.inv.cdb_ok k h0 hg).1.sorted)
     (fun k => by rw [hd k, h.dur_eq k n hw, ← hdur k]; exact valAt_cur_readAt h k n)
     hcv hold
-    (fun k h0 hi hg ho => by
-      have hmem : (k, h0) ∈ tl.cache := List.mem_of_getElem? hg
-      rw [hrow k h0 hi hg ho]
-      exact hold k h0 (AMap.get?_of_mem_nodup nd1 hmem) ho)
   exact reorg_reads hc0 _ (fun k => (hr k).1) (fun k => (hr k).2)
 
-/-- A crash *between* the write pairs of two keys (even `i`) inside `reorg m` is always recoverable. -/
+/-- **Crash inside `reorg`.**  The same for a crash in the middle of the commit that ends a `reorg m` (after the
+in-memory truncation; `tl` is the loaded table): a later rollback to any durable `n ≤ m` inside the window repairs it,
+whatever the number `i` of writes that reached the disk.
+
+No side condition on the value rows is needed.  The critical case is a key whose *truncated* history is old at `m`
+and which the crash catches between its two writes (`i` odd, key number `i / 2` of the loaded cache): its value row
+has been rewritten to the rolled-back value, and its history row - the history persisted *before* the `reorg`, which
+by `dur_eq` and durability of `n` says the right thing at `n` - is still on disk, so the next `reorg n` visits the key
+and rewrites both rows from it.  If the key had no persisted history, the new value row alone is the right answer. -/
+theorem crash_in_reorg_recoverable {W : Nat} {t : Table K V} {s : TSpec K V} (h : Sim W t s) (hc : ColsNodup t)
+    (m i n : Nat) (hm : s.maxEver ≤ m + W) (hm' : m ≤ s.maxEver) (hnm : n ≤ m)
+    (hw : s.maxEver ≤ n + W)
+    (hdur : ∀ k, (s.cur k).valAt n = (s.dur k).valAt n) (tl : Table K V)
+    (hl : t.reorgLoad m t.reorgKeys = some tl) :
+    ∃ t', (tl.crashCommit W m i).reorg W n = some t' ∧ ∀ k, t'.latest k = s.readAt k n :=
+  crash_in_reorg_recoverable_core h m i n hm hm' hnm hw hdur tl hl
+
+/-- A crash *between* the write pairs of two keys (even `i`) inside `reorg m`: special case, kept for interface
+stability (under the former write order it was the only unconditional case). -/
 theorem crash_in_reorg_recoverable_even {W : Nat} {t : Table K V} {s : TSpec K V} (h : Sim W t s) (hc : ColsNodup t)
     (m i n : Nat) (hm : s.maxEver ≤ m + W) (hm' : m ≤ s.maxEver) (hnm : n ≤ m)
     (hw : s.maxEver ≤ n + W)
     (hdur : ∀ k, (s.cur k).valAt n = (s.dur k).valAt n) (tl : Table K V)
     (hl : t.reorgLoad m t.reorgKeys = some tl) (hi : i % 2 = 0) :
     ∃ t', (tl.crashCommit W m i).reorg W n = some t' ∧ ∀ k, t'.latest k = s.readAt k n :=
-  crash_in_reorg_recoverable h hc m i n hm hm' hnm hw hdur tl hl (fun _ _ h1 => by omega)
+  crash_in_reorg_recoverable h hc m i n hm hm' hnm hw hdur tl hl
+
+/-- `crash_in_reorg_recoverable` for every state reached from the empty table by a legal history: `reorg m` loads
+without panic, and a crash after any number `i` of the writes of its commit, followed by a reopen and `reorg n`
+(`n ≤ m`, both inside the window, `n` durable), restores every key to its value at the end of block `n`. -/
+theorem crash_in_reorg_recoverable_run {W : Nat} (ops : List (TOp K V)) (hl : TSpec.legalRun W TSpec.init ops) :
+    ∃ t, (Table.empty : Table K V).run W ops = some t ∧
+      ∀ m n, m ≤ (TSpec.init.run ops).maxEver → n ≤ m → (TSpec.init.run ops).maxEver ≤ n + W →
+        (∀ k, (((TSpec.init : TSpec K V).run ops).cur k).valAt n = ((TSpec.init.run ops).dur k).valAt n) →
+        ∃ tl, t.reorgLoad m t.reorgKeys = some tl ∧
+          ∀ i, ∃ t', (tl.crashCommit W m i).reorg W n = some t' ∧
+            ∀ k, t'.latest k = (TSpec.init.run ops).readAt k n := by
+  obtain ⟨t, e, hs⟩ := run_sim (sim_init W) ops hl
+  refine ⟨t, e, ?_⟩
+  intro m n hm' hnm hw hdur
+  have hm : (TSpec.init.run ops : TSpec K V).maxEver ≤ m + W := by omega
+  obtain ⟨tl, el, _⟩ := reorg_load hs m hm
+  exact ⟨tl, el, fun i => crash_in_reorg_recoverable_core hs m i n hm hm' hnm hw hdur tl el⟩
 
 /-- A crash with no write in flight (`i = 0`) is a discard: the reopened table reads its durable logs. -/
 theorem crash_before_first_write {W : Nat} {t : Table K V} {s : TSpec K V} (h : Sim W t s) (b : Nat) (k : K) :
@@ -170,44 +182,63 @@ theorem crash_after_last_write {W : Nat} {t : Table K V} (b i : Nat) (hi : (t.co
   rw [List.take_of_length_le hi]
   rfl
 
-/-! ## The crash window of `reorg`: a reachable, machine-checked counterexample
+/-! ## The former crash window of `reorg`: the scenario, machine-checked, now recovers
 
 `W = 10`, one key `0`.  History `set 5 0 1; commit 6; set 17 0 2; commit 18` (legal; `maxEver = 17`).  `reorg 16`
 loads key 0 and truncates its history `[(5,1),(17,2)]` to `[(5,1)]`, which is old at 16 (`5 + 10 < 16`): the
-commit first deletes the history row, then rewrites the value row to `1`.  A crash between the two (`i = 1`) and a
-reopen leave `db = [(0,2)]`, `cdb = []`.  Every hypothesis of `crash_in_reorg_recoverable` other than `hrow`
-holds for `m = n = 16`, yet `reorg 16` (any `reorg`) on the reopened table leaves key 0 at `2`; the plain map has
-`1` at block 16. -/
+commit first rewrites the value row to `1`, then deletes the history row.  A crash between the two (`i = 1`) and a
+reopen leave `db = [(0,1)]`, `cdb = [(0,[(5,1),(17,2)])]`: the history row is still there, so `reorg 16` on the
+reopened table visits key 0 again, and key 0 reads `1` - the value the plain map has at block 16.  (With the former
+order - deletion first - the crash left `db = [(0,2)]`, `cdb = []`, and key 0 read `2` for ever.)  The same holds
+for every crash index `i`. -/
 
 def cexOps : List (TOp Nat Nat) := [.set 5 0 1, .commit 6, .set 17 0 2, .commit 18]
 
 theorem cexOps_legal : TSpec.legalRun 10 (TSpec.init : TSpec Nat Nat) cexOps := by
   simp [cexOps, TSpec.legalRun, TSpec.legal, TSpec.step, TSpec.init]
 
-theorem crash_in_reorg_not_recoverable :
+/-- The table `reorg 16` has loaded (key 0 truncated to `[(5,1)]`), before its commit. -/
+def cexLoaded : Table Nat Nat :=
+  { db := [(0, 2)], cdb := [(0, [(5, some 1), (17, some 2)])], cache := [(0, [(5, some 1)])] }
+
+theorem crash_in_reorg_scenario_recovers :
     ∃ (t tl : Table Nat Nat) (s : TSpec Nat Nat), s = TSpec.init.run cexOps ∧
       Table.empty.run 10 cexOps = some t ∧ Sim 10 t s ∧ ColsNodup t ∧
       s.maxEver ≤ 16 + 10 ∧ 16 ≤ s.maxEver ∧ (∀ k, (s.cur k).valAt 16 = (s.dur k).valAt 16) ∧
       t.reorgLoad 16 t.reorgKeys = some tl ∧
-      ((tl.crashCommit 10 16 1).reorg 10 16).map (fun t' => t'.latest 0) = some (some 2) ∧
+      -- the state on disk after the crash: value row rewritten, history row still there
+      tl.crashCommit 10 16 1 = { db := [(0, 1)], cdb := [(0, [(5, some 1), (17, some 2)])], cache := [] } ∧
+      ((tl.crashCommit 10 16 1).reorg 10 16).map (fun t' => t'.latest 0) = some (some 1) ∧
+      (∀ i, ((tl.crashCommit 10 16 i).reorg 10 16).map (fun t' => t'.latest 0) = some (some 1)) ∧
       s.readAt 0 16 = some 1 := by
   obtain ⟨t, e, hs⟩ := run_sim (sim_init 10) cexOps cexOps_legal
   have et : (Table.empty : Table Nat Nat).run 10 cexOps =
       some { db := [(0, 2)], cdb := [(0, [(5, some 1), (17, some 2)])], cache := [] } := by rfl
   rw [et] at e; cases e
-  refine ⟨_, { db := [(0, 2)], cdb := [(0, [(5, some 1), (17, some 2)])], cache := [(0, [(5, some 1)])] },
-    _, rfl, et, hs, ?_, by decide, by decide, ?_, by rfl, by decide, by decide⟩
+  refine ⟨_, cexLoaded, _, rfl, et, hs, ?_, by decide, by decide, ?_, by rfl, by rfl, by decide, ?_, by decide⟩
   · exact ⟨by simp [AMap.Nodup, AMap.keys], by simp [AMap.Nodup, AMap.keys]⟩
   · intro k
     by_cases hk : k = 0
     · subst hk; decide
     · simp [cexOps, TSpec.run, TSpec.step, TSpec.upd, hk]
+  · intro i
+    match i with
+    | 0 => decide
+    | 1 => decide
+    | j + 2 =>
+      have l2 : (commitWrites 10 cexLoaded 16).length = 2 := by decide
+      have e : cexLoaded.crashCommit 10 16 (j + 2) = cexLoaded.crashCommit 10 16 2 := by
+        rw [crash_after_last_write 16 (j + 2) (by rw [l2]; omega), crash_after_last_write 16 2 (by rw [l2]; omega)]
+      show ((cexLoaded.crashCommit 10 16 (j + 2)).reorg 10 16).map (fun t' => t'.latest 0) = some (some 1)
+      rw [e]; decide
 
-/-! ## `crash_recoverable` without `CacheAhead`: machine-checked counterexample
+/-! ## `crash_recoverable` without `CacheAhead`: the former counterexample now recovers
 
 A table in simulation (`Sim`) whose cached history of key 0 is *behind* the persisted one - the shape of the state
-inside a `reorg`, between load and commit.  All hypotheses of the original statement hold (`b = 16`, `i = 1`,
-`n = 5`, `W = 10`), the conclusion fails: key 0 reads `2`, the plain map has `1` at block 5. -/
+inside a `reorg`, between load and commit - so `CacheAhead` fails.  With the former write order the crash at `b = 16`,
+`i = 1` deleted the history row and left the value row `2`, and `reorg 5` read `2` instead of `1`.  Now the first
+write is the value row (`1`), the history row is still on disk, and `reorg 5` reads `1`: `CacheAhead` is not needed
+(`crash_recoverable_of_sim`). -/
 
 def cexTable : Table Nat Nat :=
   { db := [(0, 2)], cdb := [(0, [(0, none), (5, some 1), (7, some 2)])], cache := [(0, [(0, none), (5, some 1)])] }
@@ -253,14 +284,16 @@ theorem cex_sim : Sim 10 cexTable cexSpec := by
     · subst hk; rfl
     · simp [disk, cexTable, cexSpec, hget k _ hk, hk]
 
-theorem crash_not_recoverable_without_cacheAhead :
+theorem crash_without_cacheAhead_scenario_recovers :
     Sim 10 cexTable cexSpec ∧ ColsNodup cexTable ∧
       cexSpec.maxEver ≤ 5 + 10 ∧ 5 ≤ cexSpec.maxEver ∧ 16 ≤ 5 + 10 + 1 ∧
       (∀ k, (cexSpec.cur k).valAt 5 = (cexSpec.dur k).valAt 5) ∧
-      ((cexTable.crashCommit 10 16 1).reorg 10 5).map (fun t' => t'.latest 0) = some (some 2) ∧
+      cexTable.crashCommit 10 16 1 =
+        { db := [(0, 1)], cdb := [(0, [(0, none), (5, some 1), (7, some 2)])], cache := [] } ∧
+      ((cexTable.crashCommit 10 16 1).reorg 10 5).map (fun t' => t'.latest 0) = some (some 1) ∧
       cexSpec.readAt 0 5 = some 1 ∧ ¬ CacheAhead cexTable := by
   refine ⟨cex_sim, ⟨by simp [cexTable, AMap.Nodup, AMap.keys], by simp [cexTable, AMap.Nodup, AMap.keys]⟩,
-    by decide, by decide, by decide, ?_, by decide, by decide, ?_⟩
+    by decide, by decide, by decide, ?_, by rfl, by decide, by decide, ?_⟩
   · intro k
     by_cases hk : k = 0
     · subst hk; decide
